@@ -20,7 +20,9 @@ def generate(rng, tier):
         for R in range(3):
             for Q in range(4):
                 rng.setstate(state)  # the same physical data for all 12 variants
-                c = FL.gen_filter_case(rng, tier, R, Q, channel=2)
+                # the same transform options for all 12 variants
+                c = FL.gen_filter_case(rng, tier, R, Q, channel=2, lorch=bool(rep & 1), omitted=bool(rep & 2))
+                c["flagform"] = ["bool", "npbool", "int"][rep % 3]
                 if rep < 4:
                     FL.force_uncertainties(rng, c, dgr=(rep in (0, 1)), dy=(rep in (0, 2)))
                 cases.append(c)
@@ -76,7 +78,7 @@ def oracle(pystog, case, res):
     da = None if case["dgr"] is None else np.array(case["dgr"], float)
     db = None if case["dy"] is None else np.array(case["dy"], float)
     fvar = getattr(ff, case["desc"]["variant"])
-    kwv = L.kwargs_of(m)
+    kwv = FL.option_kwargs(case)
     first = fvar(arrs[0], arrs[1], arrs[2], arrs[3], case["cutoff"], da, db, **kwv)
     second = fvar(arrs[0], arrs[1], arrs[2], arrs[3], case["cutoff"], da, db, **kwv)
     if not all(np.array_equal(np.asarray(u, float), np.asarray(w, float), equal_nan=True) for u, w in zip(first, second)):
